@@ -536,7 +536,7 @@ Definition rq_fuel (len : nat) : nat := (16 * len + 16)%nat.
 Definition connp_req_data (data : option bytes) (len : nat) (c : connp) : connp * Z :=
   if c_in_status c =? c_HTP_STREAM_STOP then (c, c_HTP_STREAM_STOP)
   else if c_in_status c =? c_HTP_STREAM_ERROR then (c, c_HTP_STREAM_ERROR)
-  else if match c_in_tx c with None => negb (req_state_eqb (c_in_state c) REQ_IDLE) | Some _ => false end
+  else if match c_in_tx c with None => negb (req_state_eqb (c_in_state c) REQ_IDLE) && negb (c_in_status c =? c_HTP_STREAM_TUNNEL) | Some _ => false end
   then (c <| c_in_status := c_HTP_STREAM_ERROR |>, c_HTP_STREAM_ERROR)
   else if (len =? 0)%nat && negb (c_in_status c =? c_HTP_STREAM_CLOSED) then (c, c_HTP_STREAM_CLOSED)
   else
